@@ -57,8 +57,21 @@ func init() {
 			v2Setup string
 		}
 		var bases []*baseInfo
-		for i := 0; len(bases) < *nBases && i < 40**nBases; i++ {
-			c := GenCase(*seed, i, "simple")
+		// a notation that refers to a blank-imported package by its name: the named import of the output is added by
+		// goimports, which looks around in the package directory; a second package of the same name lives in the module
+		blank := GCase{Name: "blankimp", Setup: "blankimp/setup.go", Profile: "simple", Features: []string{"import-added-by-goimports"},
+			Files: map[string]string{
+				"blankimp/setup.go":                "//go:build convergen\n\npackage blankimp\n\nimport (\n\t_ \"exp/blankimp/crypto\"\n)\n\ntype Convergen interface {\n\t// :conv crypto.Encrypt Email\n\tToRow(*User) *UserRow\n}\n",
+				"blankimp/types.go":                "package blankimp\n\ntype User struct{ Email string }\ntype UserRow struct{ Email string }\n",
+				"blankimp/crypto/crypto.go":        "package crypto\n\nfunc Encrypt(s string) string { return s }\n",
+				"blankimp/legacy/crypto/crypto.go": "package crypto\n\nfunc Encrypt(s string) string { return s }\n",
+			}}
+		*nBases++
+		for i := -1; len(bases) < *nBases && i < 40**nBases; i++ {
+			c := blank
+			if i >= 0 {
+				c = GenCase(*seed, i, "simple")
+			}
 			// a long package name makes the package clause of the output a wide target
 			if err := writeCase(pristine, c); err != nil {
 				fatal(err)
@@ -94,6 +107,10 @@ func init() {
 			if bi.cleanV2 != "" {
 				steps = append(steps, histStep{Base: bi.c.Name, Class: "older-version", Stale: o, Edit: "v2"})
 				steps = append(steps, histStep{Base: bi.c.Name, Class: "newer-version", Stale: bi.cleanV2})
+			}
+			if older := strings.ReplaceAll(o, "\"exp/blankimp/crypto\"", "\"exp/blankimp/legacy/crypto\""); older != o {
+				// what a run left when the setup file still imported the other package of that name
+				steps = append(steps, histStep{Base: bi.c.Name, Class: "older-imports", Stale: older})
 			}
 			loc := rePkgClause.FindStringSubmatchIndex(o)
 			offsets := map[int]bool{}
